@@ -506,7 +506,7 @@ func (w *World) eventSorts(name string, from *ssa.Function) ([]string, []string,
 				if n, ok := t.Underlying().(*types.Pointer).Elem().(*types.Named); ok {
 					switch n.Obj().Name() {
 					case "converter", "Parser", "transpiler":
-						return "Int"
+						return w.sortOf(n) // logged as a snapshot of the pointee
 					}
 				}
 				return s
@@ -551,6 +551,27 @@ func (w *World) eventSorts(name string, from *ssa.Function) ([]string, []string,
 				}
 				return as, rs, true
 			}
+		}
+	}
+	// a modelled library function (logged under its mangled qualified name)
+	for _, pkg := range w.prog.AllPackages() {
+		if pkg == nil || pkg.Pkg == nil || !strings.HasPrefix(name, mangle(pkg.Pkg.Path())+"_") {
+			continue
+		}
+		for _, m := range pkg.Members {
+			fn, ok := m.(*ssa.Function)
+			if !ok || mangle(libName(fn)) != name {
+				continue
+			}
+			var as, rs []string
+			for _, p := range fn.Params {
+				as = append(as, evSort(p.Type()))
+			}
+			res := fn.Signature.Results()
+			for j := 0; j < res.Len(); j++ {
+				rs = append(rs, evSort(res.At(j).Type()))
+			}
+			return as, rs, true
 		}
 	}
 	var cands []*ssa.Function
